@@ -224,6 +224,33 @@ fn fork_probe(runner: &mut Runner, input: &Input, timeout_s: f64, caps: Option<(
     }
 }
 
+/// Compile `src` in a fresh process (`c06 --probe @file`); the violation class if it panicked or died.
+fn fresh_process_probe(src: &str) -> Option<String> {
+    let dir = oracle::work_root();
+    let _ = std::fs::create_dir_all(&dir);
+    let path = dir.join(format!("fresh-{}-{}.roto", std::process::id(), vcore::util::fnv_str(src)));
+    std::fs::write(&path, src).ok()?;
+    let out = std::process::Command::new(std::env::current_exe().ok()?)
+        .arg("--probe")
+        .arg(format!("@{}", path.display()))
+        .output();
+    let _ = std::fs::remove_file(&path);
+    let out = out.ok()?;
+    let text = String::from_utf8_lossy(&out.stdout).to_string();
+    if !out.status.success() {
+        return Some(format!("fresh-process:{}", out.status));
+    }
+    if let Some(i) = text.find("class: \"panic:") {
+        let rest = &text[i + 8..];
+        let class = rest.split('"').next().unwrap_or("panic:?");
+        return Some(format!("fresh-process-{class}"));
+    }
+    if text.contains("DIED") {
+        return Some("fresh-process:died".into());
+    }
+    None
+}
+
 // ------------------------------------------------------------------ the check
 
 struct C06;
@@ -276,10 +303,24 @@ impl Check for C06 {
                 cx.sample(json!({"layer": layer.name(), "generated_by": info, "input": input.to_json()}));
             }
             let mut viol: Option<(String, Value, Value)> = None;
+            let mut viol_fresh: Option<(String, Value)> = None;
             let mut obs = None;
             let died = match &input {
                 // L6: every input is compiled in a forked copy first, under the layer's
                 // CPU-time and address-space caps ("hangs" is decided there)
+                // the "huge:" repeaters depend on where the allocator puts large blocks, which
+                // in turn depends on what this worker did before: they are compiled in a FRESH
+                // process (`c06 --probe @file`), the state every embedder starts from
+                Input::Single(s) if layer == Layer::L6 && info["repeater"].as_str().is_some_and(|r| r.starts_with("huge:")) => {
+                    probes += 1;
+                    if let Some(class) = fresh_process_probe(s) {
+                        let mut c = case_json(layer, &input, &info);
+                        c["phase"] = json!("compile in a fresh process");
+                        c["src"] = json!(format!("{}... ({} bytes)", &s[..s.len().min(80)], s.len()));
+                        viol_fresh = Some((class, c));
+                    }
+                    None
+                }
                 Input::Single(_) if layer == Layer::L6 => {
                     probes += 1;
                     fork_probe(&mut runner, &input, l6::WALL_BACKSTOP_S, Some((Some(l6::AS_CAP), l6::cpu_cap_s(&cfg))))
@@ -295,7 +336,11 @@ impl Check for C06 {
                 }
                 _ => None,
             };
-            if let Some(class) = died {
+            if let Some((class, c)) = viol_fresh.take() {
+                execs += 1;
+                cx.outcome(vcore::util::fnv_str(&class));
+                viol = Some((class, c, json!("a fresh process compiling this input panicked / died")));
+            } else if let Some(class) = died {
                 execs += 1;
                 cx.outcome(vcore::util::fnv_str(&class));
                 let c = case_json(layer, &input, &info);
